@@ -5,6 +5,7 @@ mod mockfs;
 mod props;
 mod reqgen;
 mod transport;
+mod vfsdrv;
 
 use engine::Tier;
 
